@@ -98,8 +98,8 @@ func init() {
 		"internal/bytealg.IndexString":   bytealgIndexString,
 		"internal/bytealg.MakeNoZero":    bytealgMakeNoZero,
 		"internal/stringslite.Index":     nil,
-		"strings.ToLower":                stringsMap(strings.ToLower),
-		"strings.ToUpper":                stringsMap(strings.ToUpper),
+		"strings.ToLower":                stringsCase(true),
+		"strings.ToUpper":                stringsCase(false),
 		"strings.TrimSpace":              stringsMap(strings.TrimSpace),
 		"strings.EqualFold":              nil,
 		"(*strings.Builder).String":      nil,
@@ -122,6 +122,8 @@ func init() {
 		"math/rand.Seed":    nop,
 		"crypto/rand.Read":  cryptoRandRead,
 		// ---- runtime
+		"internal/abi.NoEscape": identity,
+		"internal/abi.Escape":   identity,
 		"runtime.Gosched":       nop,
 		"runtime.KeepAlive":     nop,
 		"runtime/debug.PrintStack": nop,
@@ -133,6 +135,8 @@ func init() {
 		}
 	}
 }
+
+func identity(e *Engine, st *State, th *Thread, fn *ssa.Function, args []Val) Val { return args[0] }
 
 func nop(e *Engine, st *State, th *Thread, fn *ssa.Function, args []Val) Val { return nil }
 
@@ -608,6 +612,36 @@ func bytealgMakeNoZero(e *Engine, st *State, th *Thread, fn *ssa.Function, args 
 	n := args[0].(IntV).T
 	o := st.newBytes(e, aZeroArr, n, "MakeNoZero")
 	return SliceV{Obj: o.id, Off: e.tb.BV(0, 64), Len: n, Cap: n}
+}
+
+// stringsCase: ASCII case mapping on symbolic strings (non-ASCII bytes are outside the model).
+func stringsCase(lower bool) intrinsicFn {
+	return func(e *Engine, st *State, th *Thread, fn *ssa.Function, args []Val) Val {
+		tb := e.tb
+		s := args[0].(StrV)
+		if s.Conc {
+			if s.S == opaqueStr {
+				return s
+			}
+			if lower {
+				return StrV{Conc: true, S: strings.ToLower(s.S)}
+			}
+			return StrV{Conc: true, S: strings.ToUpper(s.S)}
+		}
+		out := make([]*Term, len(s.B))
+		for i, b := range s.B {
+			if !e.decide(st, tb.Cmp("bvult", b, tb.BV(0x80, 8))) {
+				panic(engineErr("%s on non-ASCII symbolic string", fn.Name()))
+			}
+			lo, hi, d := uint64('A'), uint64('Z'), uint64(32)
+			if !lower {
+				lo, hi, d = 'a', 'z', 256-32
+			}
+			in := tb.And(tb.Cmp("bvule", tb.BV(lo, 8), b), tb.Cmp("bvule", b, tb.BV(hi, 8)))
+			out[i] = tb.Ite(in, tb.Bin("bvadd", b, tb.BV(d, 8)), b)
+		}
+		return e.normStr(StrV{B: out})
+	}
 }
 
 func stringsMap(f func(string) string) intrinsicFn {
